@@ -224,6 +224,10 @@ def parse_directive(block):
         if mm:
             d["lift"] = _unq(mm.group(1))
             continue
+        mm = re.match(r"lift_stmt\s+(" + _STR + r")\s*$", s)
+        if mm:
+            d["lift_stmt"] = _unq(mm.group(1))
+            continue
         mm = re.match(r"lift_arg\s+(" + _STR + r")\s*$", s)
         if mm:
             # the argument expression of the call whose text ends the anchor (`...name(`) becomes the body of the function
@@ -371,6 +375,23 @@ def build_item(d, canary=False, repo=REPO):
         cb = match_delim(m_, ob)
         log.append({"rule": "N10-lift", "fn": where, "from": anchor, "to": "argument expression lifted into a named function; surrounding text dropped"})
         item_text = "fn lifted__() { Ok(" + item_text[ob + 1:cb].rstrip().rstrip(",") + ") }"
+    if d.get("lift_stmt"):
+        # N10-lift (statement): the braced statement that starts at the anchor (a loop: anchor text is its header and ends with
+        # the opening brace of its body) becomes the whole body of a named function (signature given by `sig:`, the variables
+        # it uses are the parameters); everything around it is dropped from this item
+        anchor = d["lift_stmt"]
+        n_ = item_text.count(anchor)
+        if n_ != 1:
+            raise AssembleError("lift_stmt anchor lost in %s: %r occurs %d times" % (where, anchor, n_))
+        from rustscan import match_brace
+        m_ = code_mask(item_text)
+        st = item_text.index(anchor)
+        ob = st + len(anchor) - 1
+        if m_[ob] != "{":
+            raise AssembleError("lift_stmt anchor in %s must end with the statement's opening brace" % where)
+        cb = match_brace(m_, ob)
+        log.append({"rule": "N10-lift", "fn": where, "from": anchor, "to": "statement lifted into a named function; surrounding text dropped"})
+        item_text = "fn lifted__() {\n        " + item_text[st:cb + 1] + "\n    }"
     if d.get("lift"):
         # N10-lift: the body of the closure that starts at the anchor (anchor text ends with its opening brace) becomes the
         # body of a named function (signature given by `sig:`); everything around the closure is dropped from this item
